@@ -29,12 +29,15 @@ type TaskSpec struct {
 	NestFail bool  `json:"nest_fail,omitempty"`
 	WLock string   `json:"wlock,omitempty"`
 	RLock string   `json:"rlock,omitempty"`
+	One   bool     `json:"one_command,omitempty"` // the body is a single command
+	Sandbox string `json:"sandbox,omitempty"`     // "" = self | retfail:<id> | retok:<id> (pipx: failure reported only by Run's return value)
 }
 
 // Spec of a program.
 type Spec struct {
 	Tasks []TaskSpec `json:"tasks"`
 	Ghost bool       `json:"ghost_wait,omitempty"` // additionally submit a task that waits for an unknown task
+	Split bool       `json:"split,omitempty"`      // large program: its schedule tree is divided among all workers
 	Bound int        `json:"bound"`
 }
 
@@ -73,7 +76,9 @@ func body(t TaskSpec) string {
 		}
 		l = append(l, fmt.Sprintf("pip:run --name=%s --body=\"%s\"", t.Nest, nb))
 	}
-	l = append(l, c(2))
+	if !t.One {
+		l = append(l, c(2))
+	}
 	return strings.Join(l, "\n") + "\n"
 }
 
@@ -88,13 +93,21 @@ func build(sp Spec, o *obs) func() {
 		o.w = w
 		for _, t := range sp.Tasks {
 			lock := commservices.LockMap{}
-			if t.WLock != "" {
-				lock[t.WLock] = commservices.LockRW
+			for _, r := range strings.Split(t.WLock, ",") {
+				if r != "" {
+					lock[r] = commservices.LockRW
+				}
 			}
-			if t.RLock != "" {
-				lock[t.RLock] = commservices.LockR
+			for _, r := range strings.Split(t.RLock, ",") {
+				if r != "" {
+					lock[r] = commservices.LockR
+				}
 			}
-			o.submitErr[t.Name] = w.Runner.Run(w.Pip(t.Name, body(t), t.Wait, lock, nil))
+			pip := w.Pip(t.Name, body(t), t.Wait, lock, nil)
+			if t.Sandbox != "" {
+				pip.Sandbox = t.Sandbox
+			}
+			o.submitErr[t.Name] = w.Runner.Run(pip)
 		}
 		if sp.Ghost {
 			o.ghostErr = w.Runner.Run(w.Pip("ghostwaiter", "probe --id=ghostwaiter.c1\n", []string{"no-such-task"}, nil, nil))
@@ -148,7 +161,7 @@ func judge(sp Spec, o *obs) func(x *explore.Exec) *explore.Verdict {
 			return v("refused-task-ran", "a refused submission never runs", "the refused task executed a command")
 		}
 		// which tasks fail by themselves, and which must be skipped
-		selfFails := func(t TaskSpec) bool { return t.Fail != "" }
+		selfFails := func(t TaskSpec) bool { return t.Fail != "" || strings.HasPrefix(t.Sandbox, "retfail:") }
 		var mustSkip func(name string, seen map[string]bool) bool
 		failed := func(name string, seen map[string]bool) bool {
 			t := byName[name]
@@ -207,7 +220,20 @@ func judge(sp Spec, o *obs) func(x *explore.Exec) *explore.Verdict {
 				seq = append(seq, e.Kind+":"+strings.TrimPrefix(e.ID, t.Name+"."))
 			}
 			got := strings.Join(seq, " ")
+			if t.Sandbox != "" {
+				// the foreign sandbox does not run the body: it logs one begin/end pair itself
+				if got != "begin:sb end:sb" {
+					return v("sandbox-did-not-run/"+t.Name, "every accepted submission eventually finishes", "task %s (sandbox %s) executed [%s]", t.Name, t.Sandbox, got)
+				}
+				if selfFails(t) && o.taskErrs[t.Name] == 0 {
+					return v("failed-task-holds-no-error/"+t.Name, "a task whose sandbox reports a failure ends failed", "task %s holds no error", t.Name)
+				}
+				continue
+			}
 			full := "begin:c1 end:c1 begin:c2 end:c2"
+			if t.One {
+				full = "begin:c1 end:c1"
+			}
 			allowed := map[string]bool{}
 			switch t.Fail {
 			case "":
@@ -282,7 +308,7 @@ func invalidWait(sp Spec, ti int) bool {
 
 func anyOtherFails(sp Spec, except string) bool {
 	for _, t := range sp.Tasks {
-		if (t.Name != except && t.Fail != "") || t.NestFail {
+		if (t.Name != except && (t.Fail != "" || strings.HasPrefix(t.Sandbox, "retfail:"))) || t.NestFail {
 			return true
 		}
 	}
@@ -343,12 +369,44 @@ func programs(thorough bool) []Spec {
 	ps = append(ps, Spec{Tasks: []TaskSpec{l1, l2}, Bound: b})
 	l2.WLock, l2.RLock = "", "res"
 	ps = append(ps, Spec{Tasks: []TaskSpec{l1, l2}, Bound: b})
+	ps = append(ps, LockWaitPrograms(thorough)...)
+	// tasks in a sandbox that reports success / failure only through its return value
+	rf, rk := t("a"), t("a")
+	rf.Sandbox, rk.Sandbox = "retfail:a.sb", "retok:a.sb"
+	ps = append(ps, Spec{Tasks: []TaskSpec{rf, t("b", "a")}, Bound: b + 1}, Spec{Tasks: []TaskSpec{rk, t("b", "a")}, Bound: b + 1}, Spec{Tasks: []TaskSpec{rf, t("b")}, Bound: b})
+	return ps
+}
+
+// LockWaitPrograms combine wait lists with named locks (shared with C15: a task must not hold its
+// resources while it is blocked on its wait list - the wait relation and the locks would form a cycle).
+func LockWaitPrograms(thorough bool) []Spec {
+	t := func(name string, wait ...string) TaskSpec { return TaskSpec{Name: name, Wait: wait} }
+	var ps []Spec
+	third, first, second := t("a-third"), t("b-first"), t("c-second", "b-first")
+	third.WLock, third.Yield = "alpha", 1
+	first.WLock = "alpha,beta"
+	second.WLock = "beta"
+	third.One, first.One, second.One = true, true, true
+	ps = append(ps, Spec{Tasks: []TaskSpec{third, first, second}, Bound: 0})
+	// the same with read locks on the shared resource, and a two-task variant
+	second.WLock, second.RLock = "", "beta"
+	ps = append(ps, Spec{Tasks: []TaskSpec{third, first, second}, Bound: 0})
+	x, y := t("a"), t("b", "a")
+	x.WLock, y.WLock, x.Yield = "res", "res", 1
+	b := 0
+	if thorough {
+		b = 1
+	}
+	ps = append(ps, Spec{Tasks: []TaskSpec{x, y}, Bound: b + 1})
 	return ps
 }
 
 var focus = []string{"pipservices/runner", "pipservices/tasks", "app/scope", "commservices/mutex", "terminal/termexec", "checks/c14", "checks/pipx"}
 
-func mkProgram(sp Spec) *explore.Program {
+func mkProgram(sp Spec) *explore.Program { return MkProgramFor("C14", sp) }
+
+// MkProgramFor builds the program under the given property id (C15 registers the lock programs too).
+func MkProgramFor(prop string, sp Spec) *explore.Program {
 	o := &obs{}
 	var l []string
 	for _, t := range sp.Tasks {
@@ -362,14 +420,17 @@ func mkProgram(sp Spec) *explore.Program {
 		if t.Nest != "" {
 			s += "+nest"
 		}
-		if t.WLock+t.RLock != "" {
-			s += "#" + t.WLock + t.RLock
+		if t.WLock != "" {
+			s += "#w:" + t.WLock
+		}
+		if t.RLock != "" {
+			s += "#r:" + t.RLock
 		}
 		l = append(l, s)
 	}
 	sort.Strings(l)
-	return &explore.Program{Prop: "C14", Name: strings.Join(l, " "), Spec: sp,
-		Opt:  explore.Options{Bound: sp.Bound, Focus: focus, MaxSteps: 30000, HBR: true, HBRAuxNeutral: true, NoShard: true, SelectCost: -1},
+	return &explore.Program{Prop: prop, Name: "runner: " + strings.Join(l, " "), Spec: sp,
+		Opt:  explore.Options{Bound: sp.Bound, Focus: focus, MaxSteps: 30000, HBR: true, HBRAuxNeutral: true, NoShard: !sp.Split, SelectCost: -1},
 		Body: build(sp, o), Judge: judge(sp, o),
 		Outcome: func() string {
 			if o.w == nil {
@@ -390,7 +451,7 @@ func run(c *fw.Ctx) {
 		} else if only != "" {
 			i = c.Shard
 		}
-		if !c.Mine(i) {
+		if !sp.Split && !c.Mine(i) {
 			continue
 		}
 		if c.Expired() {
@@ -419,7 +480,7 @@ func replay(wj json.RawMessage) (*fw.Violation, error) {
 
 func init() {
 	fw.Register(&fw.Check{ID: "C14", Level: "model_checking",
-		Rule: "programs = task graphs on 2-3 tasks (all wait shapes incl. diamonds and chains) x failing command variants (first/second command returns an error; a command appends an error to its scope) x body durations x a submission waiting for an unknown task, for itself, or for a task submitted later x nested pip:run from inside a body x write/read resource locks; a mock application (terminal, common, open-container and pipeline modules) is bootstrapped per execution, tasks are submitted through the real Runner and run in the real self sandbox (terminal read-execute loop) with probe commands; every schedule with <= bound preemptions (quick: free context switches at blocking points only, chains and two-task graphs; thorough: 1 preemption for chains and two-task graphs, free switches for three-task graphs with concurrent tasks) with a happens-before state cache; oracle on the probe event log. states = distinct schedule traces",
+		Rule: "programs = task graphs on 2-3 tasks (all wait shapes incl. diamonds and chains) x failing command variants (first/second command returns an error; a command appends an error to its scope) x body durations x a submission waiting for an unknown task, for itself, or for a task submitted later x nested pip:run from inside a body x write/read resource locks (also combined with wait lists) x a sandbox that reports its outcome only through its return value; a mock application (terminal, common, open-container and pipeline modules) is bootstrapped per execution, tasks are submitted through the real Runner and run in the real self sandbox (terminal read-execute loop) with probe commands; every schedule with <= bound preemptions (quick: free context switches at blocking points only, chains and two-task graphs; thorough: 1 preemption for chains and two-task graphs, free switches for three-task graphs with concurrent tasks) with a happens-before state cache; oracle on the probe event log. states = distinct schedule traces",
 		Run: run, Replay: replay,
 		Assumptions: []string{"tasks under one parent scope share its context: after any failure a sibling body may be cut short (prefix), which the statement does not forbid; only order, never-after-failure and the results are judged", "a command that reports its error through AppendError and returns nil does not stop its own loop deterministically (select between done and the next line); only commands that return an error must stop the body"}})
 }
